@@ -67,6 +67,9 @@ func buildRepoGraph(p *Program) *repoGraph {
 				site = e.Site
 			}
 			if fn != f {
+				if to == f {
+					continue // $bound/$thunk wrapper calling the method it wraps: not a recursion
+				}
 				site = nil // edge originates in a wrapper
 			}
 			g.succ[f] = append(g.succ[f], recEdge{f, to, site})
@@ -589,8 +592,34 @@ func counterGuarded(f *ssa.Function, call ssa.Instruction) (bool, string) {
 // outcome of a membership test on the visited container, (ii) dominated by an
 // insertion into it, (iii) if row.Release, followed on every normal path by a
 // removal/decrement.
+// containerCall: ins is a call of a method named one of names on the visited container.
+func containerCall(ins ssa.Instruction, row *guardRow, names ...string) (ssa.CallInstruction, bool) {
+	cl, ok := ins.(ssa.CallInstruction)
+	if !ok {
+		return nil, false
+	}
+	o := calleeObj(cl)
+	if o == nil {
+		return nil, false
+	}
+	hit := false
+	for _, n := range names {
+		if o.Name() == n {
+			hit = true
+		}
+	}
+	if !hit {
+		return nil, false
+	}
+	ops := opsOf(cl)
+	if len(ops) == 0 || !containerMatches(ops[0], row) {
+		return nil, false
+	}
+	return cl, true
+}
+
 func visitedGuarded(f *ssa.Function, call ssa.Instruction, row *guardRow) (bool, string) {
-	// (ii) insertion: MapUpdate on container, or store of append to it
+	// (ii) insertion: MapUpdate on container, store of append to it, or Insert/Add method
 	var insert ssa.Instruction
 	eachInstr(f, func(_ *ssa.BasicBlock, i ssa.Instruction) {
 		switch x := i.(type) {
@@ -606,19 +635,29 @@ func visitedGuarded(f *ssa.Function, call ssa.Instruction, row *guardRow) (bool,
 					}
 				}
 			}
+		case *ssa.Call:
+			if _, ok := containerCall(i, row, "Insert", "Add", "Push"); ok && instrDominates(i, call) {
+				insert = i
+			}
 		}
 	})
 	if insert == nil {
 		return false, fmt.Sprintf("no insertion into the visited container %q dominates the call", row.Container)
 	}
-	// (i) membership test: a Lookup on the container (or a range over it with an equality test) whose outcome controls the call
+	// (i) membership test controlling the call: a Lookup on the container or a Contains/Has method call
 	tested := false
+	var tests []ssa.Value
 	eachInstr(f, func(_ *ssa.BasicBlock, i ssa.Instruction) {
-		lk, ok := i.(*ssa.Lookup)
-		if !ok || !containerMatches(lk.X, row) {
-			return
+		if lk, ok := i.(*ssa.Lookup); ok && containerMatches(lk.X, row) {
+			tests = append(tests, lk)
 		}
-		// any branch that depends on the lookup and whose one successor edge-dominates the call while the other does not reach it
+		if cl, ok := containerCall(i, row, "Contains", "Has"); ok {
+			if v := cl.Value(); v != nil {
+				tests = append(tests, v)
+			}
+		}
+	})
+	for _, tv := range tests {
 		var conds []ssa.Value
 		var walk func(v ssa.Value, d int)
 		walk = func(v ssa.Value, d int) {
@@ -639,21 +678,17 @@ func visitedGuarded(f *ssa.Function, call ssa.Instruction, row *guardRow) (bool,
 				}
 			}
 		}
-		walk(lk, 0)
+		walk(tv, 0)
 		for _, cv := range conds {
 			for _, br := range branchesOn(cv) {
-				for _, s := range []*ssa.BasicBlock{br.TrueSucc, br.FalseSucc} {
-					other := br.TrueSucc
-					if s == br.TrueSucc {
-						other = br.FalseSucc
-					}
-					if (s == call.Block() || s.Dominates(call.Block())) && !blockReaches(other, call.Block(), s) {
-						tested = true
-					}
+				t := blockReaches(br.TrueSucc, call.Block(), nil)
+				fl := blockReaches(br.FalseSucc, call.Block(), nil)
+				if t != fl {
+					tested = true
 				}
 			}
 		}
-	})
+	}
 	if !tested {
 		return false, fmt.Sprintf("the call is not control-dependent on a membership test of the visited container %q", row.Container)
 	}
@@ -666,24 +701,36 @@ func visitedGuarded(f *ssa.Function, call ssa.Instruction, row *guardRow) (bool,
 				if b, ok := x.Call.Value.(*ssa.Builtin); ok && b.Name() == "delete" && containerMatches(x.Call.Args[0], row) {
 					return true
 				}
+				if _, ok := containerCall(i, row, "Remove", "Delete", "Pop"); ok {
+					return true
+				}
 			}
 			return false
 		}
-		// every path from the call to a return that returns a nil error passes a release
-		if ret, bad := reachAvoiding(call, func(i ssa.Instruction) bool {
-			r, ok := i.(*ssa.Return)
-			if !ok {
-				return false
-			}
-			// error-return paths are exempt: output is discarded
-			for _, res := range r.Results {
-				if isErrorType(res.Type()) && !isNilConst(res) {
-					return false
+		// a deferred release registered before the call covers every exit
+		deferred := false
+		eachInstr(f, func(_ *ssa.BasicBlock, i ssa.Instruction) {
+			if d, ok := i.(*ssa.Defer); ok && instrDominates(d, call) {
+				if _, ok := containerCall(d, row, "Remove", "Delete", "Pop"); ok {
+					deferred = true
 				}
 			}
-			return true
-		}, rel); bad {
-			return false, fmt.Sprintf("a success path from the recursive call reaches the return at line %d without releasing the in-progress mark", f.Prog.Fset.Position(ret.Pos()).Line)
+		})
+		if !deferred {
+			if ret, bad := reachAvoiding(call, func(i ssa.Instruction) bool {
+				r, ok := i.(*ssa.Return)
+				if !ok {
+					return false
+				}
+				for _, res := range r.Results {
+					if isErrorType(res.Type()) && !isNilConst(res) {
+						return false // error paths: output is discarded
+					}
+				}
+				return true
+			}, rel); bad {
+				return false, fmt.Sprintf("a success path from the recursive call reaches the return at line %d without releasing the in-progress mark", f.Prog.Fset.Position(ret.Pos()).Line)
+			}
 		}
 	}
 	return true, fmt.Sprintf("membership test and insertion on %q precede the call%s", row.Container, map[bool]string{true: "; mark released on all success paths", false: ""}[row.Release])
